@@ -13,3 +13,4 @@ import Dm.Props.C01
 #print axioms Dm.Props.C01.lifetimesFirst_append
 #print axioms Dm.Props.C01.mem_implParams_of_mem
 #print axioms Dm.Props.C01.args_declared_of_kept
+#print axioms Dm.Props.C01.impl_params_have_no_defaults
